@@ -95,6 +95,130 @@ def linkerTables {K L α : Type} [DecidableEq K] (name : K) (linker : Store L α
   dictFromPairs (subs.map fun p => (p.1, modelTable p.2 status iterations includeInternal))
     [(name, modelTable linker status iterations includeInternal)]
 
+/-! ## The FORM of a flag argument, and extension mixins
+
+The export tests its flags with `if status:` / `if iterations:` / `if not include_internal:` — Python TRUTHINESS, not
+identity with `True`.  A caller hands over whatever a comparison or a mask gave it (`np.True_`, `1`, …); the label of
+the extra columns is the string constant `'status'` / `'iterations'` whatever the flag looked like. -/
+
+/-- A value passed for `status=` / `iterations=` / `include_internal=` (and `use_aliases=`, `strict=`). -/
+inductive FlagForm where
+  /-- `True` / `False` -/
+  | bool (b : Bool)
+  /-- `np.True_` / `np.False_` (what a NumPy comparison / mask yields) -/
+  | npbool (b : Bool)
+  /-- a Python int or NumPy integer -/
+  | int (i : Int)
+  /-- a Python / NumPy float, as its IEEE-754 binary64 bit pattern -/
+  | float (bits : Nat)
+  | str (s : String)
+  | none
+  deriving DecidableEq, Repr
+
+/-- `bool(x)`, what `if x:` tests: a float is falsy only as `+0.0` / `-0.0` (all bits but the sign zero; NaN is
+    truthy), an int only as 0, a str only as `''`; `None` is falsy. -/
+def truthy : FlagForm → Bool
+  | .bool b => b
+  | .npbool b => b
+  | .int i => i != 0
+  | .float bits => bits % 9223372036854775808 != 0
+  | .str s => s != ""
+  | .none => false
+
+/-- A keyword argument as the callee sees it: passed in some form, or omitted (the default of the signature). -/
+def argValue (dflt : Bool) : Option FlagForm → Bool
+  | some f => truthy f
+  | Option.none => dflt
+
+/-- `model_to_dataframe(model, status=s, iterations=i, include_internal=n)` for flags of any form. -/
+def modelTableF {L α : Type} (m : Store L α) (s i n : FlagForm) : Table L α :=
+  modelTable m (truthy s) (truthy i) (truthy n)
+
+/-- … with any of the three omitted (defaults of the signature, reflected). -/
+def modelTableA {L α : Type} (m : Store L α) (s i n : Option FlagForm) : Table L α :=
+  modelTable m (argValue Fsic.Generated.exportDefaultStatus s) (argValue Fsic.Generated.exportDefaultIterations i)
+    (argValue Fsic.Generated.exportDefaultInternal n)
+
+/-- `linker_to_dataframes(linker, …)` for flags of any form / omitted: the SAME three values go to the linker's own
+    table and to every submodel's. -/
+def linkerTablesA {K L α : Type} [DecidableEq K] (name : K) (linker : Store L α) (subs : List (K × Store L α))
+    (s i n : Option FlagForm) : List (K × Table L α) :=
+  linkerTables name linker subs (argValue Fsic.Generated.exportDefaultStatus s)
+    (argValue Fsic.Generated.exportDefaultIterations i) (argValue Fsic.Generated.exportDefaultInternal n)
+
+/-- NOT what the code does: an export that tests `flag is True` and otherwise takes a truthy flag for a column LABEL
+    (`df[flag] = …`; `labelOf` = the label such a flag turns into).  Kept to state that it differs from the code on
+    every truthy flag that is not the object `True`. -/
+def identityAddCol {α : Type} (labelOf : FlagForm → String) (f : FlagForm) (k : String) (v : List α)
+    (d : List (String × List α)) : List (String × List α) :=
+  match f with
+  | .bool true => dictSet d k v
+  | f => if truthy f then dictSet d (labelOf f) v else d
+
+def identityTable {L α : Type} (labelOf : FlagForm → String) (m : Store L α) (s i n : FlagForm) : Table L α :=
+  { index := m.span
+    cols := identityAddCol labelOf i "iterations" (m.data "iterations")
+              (identityAddCol labelOf s "status" (m.data "status")
+                (dictOf m.data (exportNames m.names (truthy n)) [])) }
+
+/-- The three flags as one value (what travels down a chain of `super().to_dataframe(...)` calls). -/
+structure Flags3 where
+  status : Bool
+  iterations : Bool
+  includeInternal : Bool
+  deriving DecidableEq, Repr
+
+/-- The export of an instance as a function of the flags alone: there is no class in it. -/
+def modelExport {L α : Type} (m : Store L α) : Flags3 → Table L α :=
+  fun f => modelTable m f.status f.iterations f.includeInternal
+
+/-- A `to_dataframe` defined by an extension mixin: what it hands on to `super().to_dataframe(...)` given what it
+    received (`fwd`), and what it does to the table that comes back (`post`). -/
+structure Wrapper (L α : Type) where
+  fwd : Flags3 → Flags3
+  post : Table L α → Table L α
+
+def wrapExport {L α : Type} (w : Wrapper L α) (base : Flags3 → Table L α) : Flags3 → Table L α :=
+  fun f => w.post (base (w.fwd f))
+
+/-- The wrappers of a class in MRO order (outermost first) around the base export. -/
+def wrapChain {L α : Type} : List (Wrapper L α) → (Flags3 → Table L α) → Flags3 → Table L α
+  | [], base => base
+  | w :: ws, base => wrapExport w (wrapChain ws base)
+
+/-- A wrapper that passes the three flags on unchanged and returns the table as it comes. -/
+def Wrapper.Forwards {L α : Type} (w : Wrapper L α) : Prop := (∀ f, w.fwd f = f) ∧ (∀ t, w.post t = t)
+
+/-- `df.rename(columns=repl)`: labels only. -/
+def renameCols {L α : Type} (repl : List (String × String)) (t : Table L α) : Table L α :=
+  { index := t.index, cols := t.cols.map fun c => ((dictGet repl c.1).getD c.1, c.2) }
+
+/-- The extension mixins of fsic. -/
+inductive Mixin where
+  | alias | tracer | pandasIndex | progressBar
+  deriving DecidableEq, Repr
+
+/-- What each mixin's class contributes to `to_dataframe` (the code that exists): `AliasMixin.to_dataframe(self, *,
+    use_aliases=False, **kwargs)` calls `super().to_dataframe(**kwargs)` — every flag the caller gave goes on as it is —
+    and renames labels iff `use_aliases` is truthy; `TracerMixin` (adds the series `trace` to `index`, NOT to `names`),
+    `PandasIndexFeaturesMixin` and `ProgressBarMixin` do not define `to_dataframe`. -/
+def mixinWrapper {L α : Type} (useAliases : Bool) (repl : List (String × String)) : Mixin → Wrapper L α
+  | .alias => ⟨fun f => f, fun t => if useAliases then renameCols repl t else t⟩
+  | .tracer => ⟨fun f => f, fun t => t⟩
+  | .pandasIndex => ⟨fun f => f, fun t => t⟩
+  | .progressBar => ⟨fun f => f, fun t => t⟩
+
+/-- `obj.to_dataframe(status=, iterations=, include_internal=, [use_aliases=])` of an instance of a class
+    `class C(*mro, Base)`. -/
+def classExport {L α : Type} (mro : List Mixin) (useAliases : Bool) (repl : List (String × String)) (m : Store L α) :
+    Flags3 → Table L α :=
+  wrapChain (mro.map (mixinWrapper useAliases repl)) (modelExport m)
+
+/-- NOT what the code does: a wrapper that spells its signature out and forgets to pass `include_internal` on (the base
+    then uses its default `dflt`). -/
+def dropsInternal {L α : Type} (dflt : Bool) : Wrapper L α :=
+  ⟨fun f => { f with includeInternal := dflt }, fun t => t⟩
+
 /-! ## Name-dependent access: variable name vs. storage key
 
 `Store.data` is the series BY NAME.  In the code the name is not where the series lives: `add_variable(name, v)` does
@@ -187,6 +311,14 @@ def fromTable {L α : Type} (cast : α → α) (dflt : Defaults α) (NAMES : Lis
              else if k ∈ NAMES then initialSeries cast dflt.value t.index.length (dictFromPairs t.cols []) k
              else [] }
   else none
+
+/-- `cls.from_dataframe(data, strict=s)`: `strict` goes to `__init__` as it is and is tested with `if strict:` — when
+    truthy, a column that is not a variable of the class (nor binds a parameter) makes the constructor raise
+    `InitialisationError`; otherwise as `fromTable`. -/
+def fromTableStrict {L α : Type} (cast : α → α) (dflt : Defaults α) (NAMES : List String) (strict : Option FlagForm)
+    (t : Table L α) : Option (Store L α) :=
+  if argValue false strict && t.cols.any (fun c => !(NAMES.contains c.1 || c.1 == defaultValueParam)) then Option.none
+  else fromTable cast dflt NAMES t
 
 /-! ## Symbol tables -/
 
